@@ -42,7 +42,7 @@ Proof. intros H. constructor. eapply whd_nonname; eauto. Qed.
 (* ------------------------------------------------------------------ weakening of Δ *)
 Lemma client_ty_weaken Δ Δ' Γ sh n t : Δ ⊆ Δ' -> client_ty Δ Γ sh n t -> client_ty Δ' Γ sh n t.
 Proof.
-  intros Hs [H1 H2]. split; auto. destruct (chan n); auto.
+  intros Hs [H1 [Ha H2]]. split; auto. split; auto. destruct (chan n); auto.
   destruct H2 as [t' [H2 H3]]. exists t'. split; auto. eapply lookup_weaken; eauto.
 Qed.
 
@@ -133,15 +133,15 @@ Lemma client_ty_subst Δ Γ sh old new x A n t :
   chan old = None -> ident old = x -> is_chan_of Δ new A -> sh <> Some x ->
   client_ty Δ (<[x := A]> Γ) sh n t -> client_ty Δ Γ sh (name_subst old new n) t.
 Proof.
-  intros Ho Hx [Hn [c [T [Hc [HT HA]]]]] Hsh [H1 H2]. rewrite name_subst_old_var by auto.
+  intros Ho Hx [Hn [c [T [Hc [HT HA]]]]] Hsh [H1 [Ha H2]]. rewrite name_subst_old_var by auto.
   unfold initialized. destruct (chan n) as [d|] eqn:Ed; simpl.
-  - split; auto. rewrite Ed. auto.
+  - split; auto. split; auto. rewrite Ed. auto.
   - destruct H2 as [H2 [t' [H3 H4]]]. rewrite Hx.
     destruct (String.eqb (ident n) x) eqn:E.
     + apply String.eqb_eq in E. rewrite E in H3. rewrite lookup_insert in H3. injection H3 as <-.
-      split; simpl; auto. rewrite Hc. exists T. split; eauto.
+      split; simpl; auto. split; [exact Ha|]. rewrite Hc. exists T. split; eauto.
     + apply String.eqb_neq in E. rewrite lookup_insert_ne in H3 by auto.
-      split; auto. rewrite Ed. split; eauto.
+      split; auto. split; auto. rewrite Ed. split; eauto.
 Qed.
 
 Lemma prov_name_subst sh rs old new x n :
@@ -224,9 +224,8 @@ Proof.
     apply String.eqb_neq in E1. apply IHk; [apply insert_commute; auto|auto|set_solver].
   - (* Close *) intros; subst; simpl. eapply T_Close; eauto.
   - (* Wait *) intros; subst; simpl. eapply T_Wait; eauto.
-  - (* Fwd *) intros Γ' sh rs s to from t0 Hp Hc Hnt Hnn Ht Γ -> Hsh Hrs; simpl.
-    eapply T_Fwd; eauto.
-    rewrite name_subst_old_var by auto. destruct (negb (initialized from) && String.eqb (ident from) (ident old)); auto.
+  - (* Fwd *) intros; subst; simpl. eapply T_Fwd; eauto.
+  - (* Drop *) intros; subst; simpl. eapply T_Drop; eauto.
   - (* Call *) intros Γ' sh rs s fn args pt fd tf Hg Hf Ht Hargs Γ -> Hsh Hrs; simpl.
     eapply T_Call; eauto; rewrite ?map_length; eauto.
     destruct Hargs as [[Hl Ha]|[a0 [rest [-> [Hl [Hp Ha]]]]]].
@@ -297,13 +296,13 @@ Lemma client_ty_subst_prov Δ Γ sh old y n t :
   chan old = None -> ident old = y -> Γ !! y = None ->
   client_ty Δ Γ sh n t -> client_ty Δ Γ (unshadow y sh) (name_subst old (new_self "") n) t.
 Proof.
-  intros Ho Hy Hfr [H1 H2]. rewrite name_subst_old_var by auto. unfold initialized.
+  intros Ho Hy Hfr [H1 [Ha H2]]. rewrite name_subst_old_var by auto. unfold initialized.
   destruct (chan n) as [d|] eqn:Ed; simpl.
-  - split; auto. rewrite Ed. auto.
+  - split; auto. split; auto. rewrite Ed. auto.
   - destruct H2 as [H2 [t' [H3 H4]]]. rewrite Hy.
     destruct (String.eqb (ident n) y) eqn:E.
     + apply String.eqb_eq in E. rewrite E in H3. congruence.
-    + split; auto. rewrite Ed. split; eauto using unshadow_ne.
+    + split; auto. split; auto. rewrite Ed. split; eauto using unshadow_ne.
 Qed.
 
 Lemma args_ok_subst_prov Δ Γ sh old y args ps :
@@ -380,9 +379,8 @@ Proof.
     + rewrite lookup_insert_ne; auto.
   - (* Close *) intros; simpl. eapply T_Close; eauto.
   - (* Wait *) intros; simpl. eapply T_Wait; eauto.
-  - (* Fwd *) intros Γ sh rs s to from t0 Hp Hc Hnt Hnn Ht Hfr; simpl.
-    eapply T_Fwd; eauto.
-    rewrite name_subst_old_var by auto. destruct (negb (initialized from) && String.eqb (ident from) (ident old)); auto.
+  - (* Fwd *) intros; simpl. eapply T_Fwd; eauto.
+  - (* Drop *) intros; simpl. eapply T_Drop; eauto.
   - (* Call *) intros Γ sh rs s fn args pt fd tf Hg Hf Ht Hargs Hfr; simpl.
     eapply T_Call; eauto; rewrite ?map_length; eauto.
     destruct Hargs as [[Hl Ha]|[a0 [rest [-> [Hl [Hp Ha]]]]]].
@@ -452,7 +450,7 @@ Lemma client_ty_subst_id Δ Γ sh old new x n t :
   chan old = None -> ident old = x -> Γ !! x = None ->
   client_ty Δ Γ sh n t -> name_subst old new n = n.
 Proof.
-  intros Ho Hx Hfr [H1 H2]. rewrite name_subst_old_var by auto. unfold initialized.
+  intros Ho Hx Hfr [H1 [_ H2]]. rewrite name_subst_old_var by auto. unfold initialized.
   destruct (chan n) as [d|]; simpl; auto.
   destruct H2 as [_ [t' [H3 _]]]. rewrite Hx.
   destruct (String.eqb (ident n) x) eqn:E; auto. apply String.eqb_eq in E. rewrite E in H3. congruence.
@@ -513,6 +511,7 @@ Proof.
   - (* Close *) reflexivity.
   - (* Wait *) f_equal. eauto.
   - (* Fwd *) reflexivity.
+  - (* Drop *) f_equal. eauto.
   - (* Call *)
     match goal with H : _ \/ _ |- _ => destruct H as [[? Ha]|[a0 [rest [-> [? [Hp Ha]]]]]] end.
     + erewrite args_ok_subst_id; eauto.
